@@ -534,7 +534,12 @@ def judge_geometry(scene, L):
                 ox0, oy0 = max(ta[0], tb[0]), max(ta[1], tb[1])
                 ox1, oy1 = min(ta[0] + ta[2], tb[0] + tb[2]), min(ta[1] + ta[3], tb[1] + tb[3])
                 orect = (ox0, oy0, ox1 - ox0, oy1 - oy0)
-                overhang = not S.comparable(a, b) and (not overlap(orect, L[a]["rect"]) or not overlap(orect, L[b]["rect"]))
+                # ... and the two species are not the two children of one node: the trunks of direct siblings are spaced
+                # by the parent from their trunk distances (which take a protruding trunk into account), so an overlap
+                # between them is never the recorded mechanism (it concerns a trunk deeper inside a neighbouring subtree)
+                direct_siblings = S.parent[a] is not None and S.parent[a] == S.parent[b]
+                overhang = (not S.comparable(a, b) and not direct_siblings
+                            and (not overlap(orect, L[a]["rect"]) or not overlap(orect, L[b]["rect"])))
                 fails.append(("trunks_overhang" if overhang else "trunks", f"trunks of species {a} and {b} overlap: {ta} / {tb}"
                               + (" (the overlap lies in the part of a trunk that overhangs its own species box)" if overhang else "")))
     # anchors referenced by drawn branches exist
